@@ -1394,3 +1394,44 @@ func ruleCountingReader(c *Ctx, r *Report) {
 	}
 	r.OK("DEP", key, c.Pos(f.Pos()), "the counter advances by the number of bytes the wrapped reader returned")
 }
+
+// ruleSignedMod (L-SIGNEDMOD): Go's % keeps the sign of the dividend. Where a signed value that includes a signed
+// Exp-Golomb delta read from the stream is reduced modulo a constant M (the H.264/H.265 scaling-list recurrence
+// nextScale = (lastScale + delta_scale + 256) % 256), the dividend carries a constant term of at least M, so that
+// the result is in 0..M-1 for every delta the syntax allows (delta >= -M/2).
+func ruleSignedMod(c *Ctx, r *Report, scope func(*ssa.Function) bool) int {
+	n := 0
+	id := func(v ssa.Value) ssa.Value { return v }
+	for _, f := range libFuncs(c, scope) {
+		idx := 0
+		for _, b := range f.Blocks {
+			for _, ins := range b.Instrs {
+				bo, ok := ins.(*ssa.BinOp)
+				if !ok || bo.Op != token.REM {
+					continue
+				}
+				bt, ok := bo.Type().Underlying().(*types.Basic)
+				if !ok || bt.Info()&types.IsUnsigned != 0 || bt.Info()&types.IsInteger == 0 {
+					continue
+				}
+				ms, ok := constSet(bo.Y, 0)
+				if !ok || len(ms) != 1 || ms[0] <= 1 {
+					continue
+				}
+				if !sliceHas(backSlice(c, bo.X, 0), "call", "ReadSignedGolomb") {
+					continue
+				}
+				n++
+				idx++
+				key := fmt.Sprintf("%s:signed %% %d#%d", SSAFuncName(f), ms[0], idx)
+				lf := linOf(bo.X, id, 0)
+				if lf.k >= ms[0] {
+					r.OK("L-SIGNEDMOD", key, c.Pos(bo.Pos()), fmt.Sprintf("the dividend carries the bias +%d", lf.k))
+				} else {
+					r.Bad("L-SIGNEDMOD", key, c.Pos(bo.Pos()), fmt.Sprintf("a signed value that includes a signed Exp-Golomb delta is reduced modulo %d without a bias of at least %d: a negative sum gives a negative result", ms[0], ms[0]))
+				}
+			}
+		}
+	}
+	return n
+}
